@@ -186,6 +186,20 @@ Proof.
     destruct (remove_sim_keeps (v_simNode q) x r1 coin (update_reg_at s (v_simNode q) r1)) as [C D].
     destruct (remove_vq_keeps vi h (remove_sim (update_reg_at s (v_simNode q) r1) (v_simNode q) x r1 coin)) as [E F].
     split; auto. congruence.
+  - (* newreg *)
+    destruct (Nat.ltb_spec n (length (nodes s))); [|simpl; auto].
+    unfold op_newreg. destruct (Nat.leb _ _); [simpl; auto|]. simpl. split.
+    + intros Hc. unfold cap_inv; simpl. apply Forall_upd; auto.
+      pose proof (cap_nth s n Hc) as Hn. unfold cap_ok in *; simpl; auto.
+    + unfold caps_of; simpl. apply map_upd_same with (d := empty_node 0 0). reflexivity.
+  - (* newinreg *)
+    destruct (Nat.ltb_spec n (length (nodes s))); [|simpl; auto].
+    unfold op_new_inreg. destruct (negb _); [simpl; auto|].
+    destruct (Nat.leb_spec (maxQ (nth_node s n)) (length (virt (nth_node s n)))); [simpl; auto|].
+    destruct (find_reg _ _) as [r|]; [|simpl; auto].
+    destruct (Nat.leb _ _); [simpl; auto|]. simpl. split.
+    + intros Hc. unfold cap_inv; simpl. apply Forall_upd; auto. unfold cap_ok; simpl. rewrite app_length; simpl; lia.
+    + unfold caps_of; simpl. apply map_upd_same with (d := empty_node 0 0). reflexivity.
 Qed.
 
 Lemma run_keeps ops : forall s, (cap_inv s -> cap_inv (run s ops)) /\ caps_of (run s ops) = caps_of s.
